@@ -176,17 +176,16 @@ def _leaf_at(t, path):
     return t
 
 
-def _m_time(rec):
-    s = sites(rec["t1"], rec["t2"])
-    return rec["clause"] == "DistinctKeys" and bool(s) and all(k in VARLIKE and f in ("ts", "it") for _, k, f, _ in s)
-
-
 def _m_fn(rec):
+    """The trees contain function calls and become identical once the function names and argument groupings of the
+    calls are erased (exp(p) / log(p); f(g(a), b) / f(g(a, b))): `evaluate` nodes print neither."""
     return (rec["clause"] == "DistinctKeys" and _has(rec["t1"], "fn")
             and _tokens(rec["t1"], True) == _tokens(rec["t2"], True))
 
 
 def _m_domain_kind(rec):
+    """All differences are domains of variables / time-dependent arrays, and the exchanged domains are grids of another
+    kind (subdomain / interface / boundary grid) with the same id."""
     s = sites(rec["t1"], rec["t2"])
     if rec["clause"] != "DistinctKeys" or not s or not all(k in VARLIKE and f == "a" for _, k, f, _ in s):
         return False
@@ -194,17 +193,27 @@ def _m_domain_kind(rec):
 
 
 def _m_plist(rec):
+    """All differences lie inside a ProjectionList, in data its key (the repr of the projections) does not show:
+    index values and the range size (the repr shows the domain size and the number of indices only)."""
     s = sites(rec["t1"], rec["t2"])
-    return rec["clause"] == "DistinctKeys" and bool(s) and all("plist" in u for _, _, _, u in s)
+    if rec["clause"] != "DistinctKeys" or not s:
+        return False
+    for p, k, f, under in s:
+        if "plist" not in under or k != "proj":
+            return False
+        transposed = _leaf_at(rec["t1"], p)[8]
+        if not (f in ("a", "b") or f == ("m" if transposed else "n")):
+            return False
+    return True
 
 
 def _m_long(rec):
+    """All differences are index values in the middle of index arrays with more than 1000 entries."""
     s = sites(rec["t1"], rec["t2"])
     return rec["clause"] == "DistinctKeys" and bool(s) and all(k == "projlong" and f == "n" for _, k, f, _ in s)
 
 
 MATCHERS = {
-    "time_or_iterate_index_not_in_key": _m_time,
     "function_not_in_key": _m_fn,
     "domain_kind_not_in_key": _m_domain_kind,
     "projection_list_key_from_repr": _m_plist,
